@@ -373,9 +373,15 @@ def run(tier: str, seed: int) -> Report:
     if tier == "thorough":
         plans = [("WRR", True, 3, 1000), ("RWR", True, 2, 1000), ("WRR", False, 3, 1000), ("WWR", True, 2, 1000),
                  ("WshortR", False, 3, 1000), ("WlongR", False, 3, 200), ("WRR", True, 2, 3000), ("RWR", False, 3, 200)]
+    # three injected frames over the full 18-letter alphabet are > 10^6 schedules per plan (hours): depth 3 runs over a
+    # 10-letter alphabet (every frame class once), depth <= 2 over the full one
+    alpha_mid = ALPHA_QUICK + ["AckWrongPair", "DataOtherDst"]
+    if tier == "thorough":
+        plans = plans + [(p, a, 2, k) for (p, a, b, k) in plans if b >= 3]
     for prog, auto, budget, ack in plans:
         def runit(ch: Any, prog: str = prog, auto: bool = auto, budget: int = budget, ack: int = ack) -> dict[str, Any]:
-            return run_scenario(ch, prog, alpha, budget, auto=auto, ack_ms=ack)
+            return run_scenario(ch, prog, alpha_mid if (budget >= 3 and tier == "thorough") else alpha, budget,
+                                auto=auto, ack_ms=ack)
 
         for _vec, t in explore(runit, 64):
             add(t, f"enum-{prog}-{'auto' if auto else 'manual'}-b{budget}-ack{ack}")
